@@ -101,7 +101,7 @@ def classify_err(b):
 class C19(Check):
     pid = "C19"
     proof_modules = ["BlocV.Proofs.C19"]
-    level = "proof + process-level differential test"
+    level = "proof"
     rule = ("real executable (subprocess, ASan+UBSan build) vs in-process library probe vs Lean model of apps/main.cpp, on: "
             "seeded random programs (progen) x argument vectors (empty, 40 words, blanks, quotes, non-ASCII, leading '-', empty word, "
             "3000-byte word) x {file, '-' with stdin, --out=FILE, --out + '-'}; one program per returned value type (integer, decimal, "
